@@ -674,12 +674,33 @@ private:
 
   bool readDoctype(std::size_t startOffset, std::size_t startLine, std::size_t startCol)
   {
-    // Tokenize the DOCTYPE up to the next '>' (naive; internal subset allowed within [])
+    // Tokenize the DOCTYPE up to the '>' that ends the declaration. The internal
+    // subset is allowed within []; quoted literals anywhere, and comments and
+    // processing instructions inside the subset, may contain '[', ']' and '>'
+    // and are skipped as a whole.
     std::size_t pos = _cur;
     int bracket = 0;
     while (pos < _input.size())
     {
       char ch = _input[pos];
+      if (bracket > 0 && _input.compare(pos, 4, "<!--") == 0)
+      {
+        std::size_t end = _input.find("-->", pos + 4);
+        pos = (end == std::string_view::npos) ? _input.size() : end + 3;
+        continue;
+      }
+      if (bracket > 0 && _input.compare(pos, 2, "<?") == 0)
+      {
+        std::size_t end = _input.find("?>", pos + 2);
+        pos = (end == std::string_view::npos) ? _input.size() : end + 2;
+        continue;
+      }
+      if (ch == '"' || ch == '\'')
+      {
+        std::size_t end = _input.find(ch, pos + 1);
+        pos = (end == std::string_view::npos) ? _input.size() : end + 1;
+        continue;
+      }
       if (ch == '[')
       {
         ++bracket;
